@@ -44,6 +44,7 @@ from ._customization import (
 )
 from ._lowlevel import contexts_active_in_frame
 from . import _glue
+from . import _verif
 
 
 __all__ = [
@@ -135,6 +136,8 @@ def extract_iter(
             if isinstance(current, Frame):
                 loops_since_progress = 0
                 to_elaborate.append((current, depth))
+                if _verif.ENABLED:
+                    _verif.point("PopFrame", tu=list(to_unwrap), te=list(to_elaborate), loops=loops_since_progress, errs=list(save_errors))
                 continue
             try:
                 unwrapped = unwrap_stackitem(current)
@@ -151,6 +154,8 @@ def extract_iter(
             if unwrapped is None:
                 loops_since_progress = 0
                 to_elaborate.append((current, depth))
+                if _verif.ENABLED:
+                    _verif.point("Unwrap", item=current, tu=list(to_unwrap), te=list(to_elaborate), loops=loops_since_progress, errs=list(save_errors))
                 continue
 
             if isinstance(unwrapped, FrameIterator):
@@ -175,13 +180,19 @@ def extract_iter(
             for item in rev_items:
                 if item is not None:
                     to_unwrap.appendleft((better_origin(item, origin), item, depth + 1))
+            if _verif.ENABLED:
+                _verif.point("Unwrap", item=current, tu=list(to_unwrap), te=list(to_elaborate), loops=loops_since_progress, errs=list(save_errors))
 
         if not to_elaborate:
+            if _verif.ENABLED:
+                _verif.point("ReachLeaf", tu=list(to_unwrap), te=list(to_elaborate), loops=0, errs=list(save_errors))
             break
 
         if not isinstance(to_elaborate[0][0], Frame):
             # We've reached a leaf
             assert not to_unwrap
+            if _verif.ENABLED:
+                _verif.point("ReachLeaf", tu=list(to_unwrap), te=list(to_elaborate), loops=0, errs=list(save_errors))
             if len(to_elaborate) > 1:
                 return list(item[0] for item in to_elaborate)
             return to_elaborate[0][0]
@@ -217,6 +228,8 @@ def extract_iter(
 
         yield frame
         if replacement is None:
+            if _verif.ENABLED:
+                _verif.point("Elab", frame=frame, depth=depth, tu=list(to_unwrap), te=list(to_elaborate), loops=0, errs=list(save_errors))
             continue
         if isinstance(replacement, collections.abc.Sequence):
             items = replacement
@@ -242,6 +255,8 @@ def extract_iter(
             items = items[:-1]
         for item in reversed(items):
             to_unwrap.appendleft((better_origin(item, None), item, depth))
+        if _verif.ENABLED:
+            _verif.point("Elab", frame=frame, depth=depth, tu=list(to_unwrap), te=list(to_elaborate), loops=0, errs=list(save_errors))
 
     return None
 
